@@ -1,7 +1,7 @@
 (* Props/C04.v — Apply performs exactly the previewed plan and never leaks across targets.
    Statements only; proofs in Proofs/DeployP.v.  plan / preview / deploy (dry) / deploy --apply all
    go through [deploy_cmd]'s first component (one function: read_only_context_in). *)
-From AP Require Import Base.Str Gen.Tables Model.Deploy Proofs.DeployP.
+From AP Require Import Base.Str Gen.Tables Model.Deploy Proofs.DeployP Proofs.RerunP.
 Open Scope N_scope.
 
 (* whatever changes on disk is a path of the announced plan or a per-root manifest of a root of
@@ -23,6 +23,22 @@ Print Assumptions C04_apply_exact.
 Theorem C04_before_true : forall f D M c, In c (plan f D M) -> c_before c = f (c_path c).
 Proof. exact plan_before. Qed.
 Print Assumptions C04_before_true.
+
+(* an announced change is a function of ITS OWN path's content (with the desired state and the managed set): two
+   disks that agree on that path announce the same change for it — nothing about sibling paths, parent directories or
+   the order of planning enters (no "known-absent directory" shortcut can be sound unless it is a component prefix) *)
+Theorem C04_change_depends_on_own_path : forall f g D M c,
+  In c (plan f D M) -> g (c_path c) = f (c_path c) -> In c (plan g D M).
+Proof.
+  intros f g D M c Hc E. apply in_plan in Hc as [[d [Hd Hc]]|[tp [Htp Hc]]]; apply in_plan.
+  - left. exists d. split; [exact Hd|].
+    pose proof (in_plan_desired _ _ _ _ Hc) as (_ & Hp & _). rewrite Hp in E.
+    rewrite (plan_desired_ext f g M d E). exact Hc.
+  - right. exists tp. split; [exact Htp|].
+    pose proof (in_plan_managed _ _ _ _ Hc) as (_ & Hp & _). rewrite Hp in E.
+    rewrite (plan_managed_ext f g D tp E). exact Hc.
+Qed.
+Print Assumptions C04_change_depends_on_own_path.
 
 (* and every announced change is realised with its announced after-content (when the plan does not
    address one path twice — possible only if two targets' roots coincide) *)
